@@ -5,6 +5,7 @@ from . import c03
 
 LEVEL = 'proof'
 RULE = c03.RULE + '; C11: 1-4 receivers per scene inside and outside the room, receiver kernel cases with delays straddling the histogram end'
+RULE = RULE + '; one receiver outside the room and one so far away that every leg and the direct sound arrive after the end'
 ASSUMPTIONS = c03.ASSUMPTIONS + ['the solid-angle factor itself is C04; known finding D3 (np.roll) is listed in known_findings.json']
 EXPLANATION = 'patchwise = ETC slot x geometric weight x exp(-m d), delayed by the ceil-rounded travel time (partial: when nothing is delayed past the end); hidden patches contribute 0; mono = sum; direct sound law.'
 
